@@ -1,15 +1,200 @@
-"""Kani back end: complete (loop-free, full-domain) harnesses, bounded stand-ins, replay."""
+"""Kani back end: complete (loop-free, full-domain) harnesses, bounded stand-ins, replay.
+
+All harness crates live in /verif/kani (offline workspace, target dir /verif/.target) and
+#[path]/include! the REAL source files of /repo, so they are rebuilt from the working tree.
+"""
 import os
 import re
+import shutil
 import subprocess
 import time
 
 ROOT = os.path.dirname(os.path.dirname(os.path.abspath(__file__)))
+KDIR = os.path.join(ROOT, 'kani')
+REPO = os.environ.get('VERIF_REPO', '/repo')
+TARGET = os.path.join(ROOT, '.target')
 
 
-def run_harness(h):
-    return {'harness': h.get('name'), 'status': 'undecided', 'detail': 'kani runner not configured', 'obligation': h.get('obligation'), 'cmd': '', 'wall_s': 0}
+def _env():
+    e = dict(os.environ)
+    e['CARGO_NET_OFFLINE'] = 'true'
+    e['CARGO_TARGET_DIR'] = TARGET
+    return e
 
 
-def find_counterexample(prop, obligation):
+def _prepare():
+    """Pin dependency versions to /repo's lock file; check the backtrace stub is sound."""
+    src = os.path.join(REPO, 'Cargo.lock')
+    # the workspace lock is regenerated offline from the registry cache by cargo itself; we only
+    # make sure no oal source mentions `backtrace` (the one crate we stub out)
+    out = subprocess.run(['grep', '-rl', '--include=*.rs', r'\bbacktrace\b', REPO + '/oal-compiler/src', REPO + '/oal-model/src',
+                          REPO + '/oal-syntax/src', REPO + '/oal-client/src', REPO + '/oal-openapi/src'],
+                         capture_output=True, text=True)
+    if out.stdout.strip():
+        return 'backtrace is mentioned by %s: the empty stub is no longer sound' % out.stdout.strip()
     return None
+
+
+MEM_LIMIT = 20 * 1024 ** 3
+
+
+def _limit():
+    import resource
+    resource.setrlimit(resource.RLIMIT_AS, (MEM_LIMIT, MEM_LIMIT))
+
+
+def run_cargo_kani(package, harness, extra=None, timeout=1800):
+    cmd = ['cargo', 'kani', '-p', package, '--harness', harness] + (extra or [])
+    t0 = time.time()
+    try:
+        p = subprocess.run(cmd, cwd=KDIR, env=_env(), capture_output=True, text=True, timeout=timeout, preexec_fn=_limit)
+        out = p.stdout + p.stderr
+        rc = p.returncode
+    except subprocess.TimeoutExpired as e:
+        out = ((e.stdout or b'').decode('utf8', 'replace') if isinstance(e.stdout, bytes) else (e.stdout or '')) + '\nTIMEOUT'
+        rc = -9
+    return ' '.join(cmd), out, rc, time.time() - t0
+
+
+def run_harness(h, with_playback=False):
+    """h: {package, harness, obligation, bounded(bool), bound(str), flags[list], timeout}"""
+    res = {'harness': '%s::%s' % (h['package'], h['harness']), 'obligation': h['obligation'], 'bounded': h.get('bounded', False),
+           'bound': h.get('bound', ''), 'status': 'undecided', 'detail': '', 'cmd': '', 'wall_s': 0.0}
+    bad = _prepare()
+    if bad:
+        res['detail'] = bad
+        return res
+    flags = list(h.get('flags') or [])
+    if with_playback and h.get('decode'):
+        flags += ['-Z', 'concrete-playback', '--concrete-playback=print']
+    cmd, out, rc, wall = run_cargo_kani(h['package'], h['harness'], flags, h.get('timeout', 1800))
+    res['cmd'] = 'cd kani && CARGO_NET_OFFLINE=true ' + cmd
+    res['wall_s'] = round(wall, 1)
+    m = re.search(r'\*\* (\d+) of (\d+) failed', out)
+    if m:
+        res['checks'] = int(m.group(2))
+    if 'VERIFICATION:- SUCCESSFUL' in out and m and int(m.group(1)) == 0:
+        if h.get('expect_stub') and not re.search(h['expect_stub'], out):
+            res['detail'] = 'expected stub line %s missing' % h['expect_stub']
+            return res
+        if res.get('checks', 0) == 0:
+            res['detail'] = 'vacuous: zero checks'
+            return res
+        res['status'] = 'pass'
+        return res
+    if 'VERIFICATION:- FAILED' in out:
+        fails = re.findall(r'Check \d+: ([^\n]+)\n\s+- Status: FAILURE\n\s+- Description: "([^"]*)"(?:\n\s+- Location: ([^\n]+))?', out)
+        # unwinding assertion failures mean the bound is too small: undecided, not a violation
+        real = [f for f in fails if 'unwinding assertion' not in f[1]]
+        if fails and not real:
+            res['detail'] = 'unwinding bound exceeded: %s' % fails[0][0]
+            return res
+        if not fails:
+            res['detail'] = 'CBMC failed without a failing check (out of memory / internal error): %s' % out[-300:]
+            return res
+        res['status'] = 'fail'
+        res['detail'] = '; '.join('%s (%s)' % (f[1], f[2]) for f in real[:5]) or 'verification failed'
+        res['output'] = out[-4000:]
+        res['counterexample'] = playback(h, out if with_playback else None)
+        return res
+    res['detail'] = 'kani did not finish (rc=%s): %s' % (rc, out[-600:])
+    return res
+
+
+def playback(h, out=None):
+    """Run the harness with concrete playback, decode the values, re-execute on the real code."""
+    dec = h.get('decode')
+    if not dec:
+        return None
+    if out is None:
+        cmd, out, rc, wall = run_cargo_kani(h['package'], h['harness'], (h.get('flags') or []) + ['-Z', 'concrete-playback', '--concrete-playback=print'], h.get('timeout', 1800))
+    m = re.search(r'let concrete_vals: Vec<Vec<u8>> = vec!\[(.*?)\];', out, re.S)
+    if not m:
+        return None
+    vals = [[int(x) for x in v.split(',') if x.strip()] for v in re.findall(r'vec!\[([^\]]*)\]', m.group(1))]
+    try:
+        return DECODERS[dec](vals)
+    except Exception as e:  # decoding is best effort
+        return {'raw_values': vals, 'decode_error': repr(e)}
+
+
+def _le(v):
+    return sum(b << (8 * i) for i, b in enumerate(v))
+
+
+def _build_bin(package, binname):
+    p = subprocess.run(['cargo', 'build', '-q', '-p', package, '--bin', binname], cwd=KDIR, env=_env(), capture_output=True, text=True)
+    path = os.path.join(TARGET, 'debug', binname)
+    return path if p.returncode == 0 and os.path.exists(path) else None
+
+
+def dec_unicode_text_idx(vals):
+    n = 4
+    buf = [v[0] for v in vals[:n]]
+    ln = _le(vals[n])
+    text = bytes(buf[:ln])
+    rest = [_le(v) for v in vals[n + 1:]]
+    exe = _build_bin('vk-unicode', 'replay_unicode')
+    cex = {'text_bytes_hex': text.hex(), 'text': text.decode('utf8', 'replace'), 'args': rest}
+    if exe:
+        outs = []
+        for idx in rest[:2]:
+            r = subprocess.run([exe, text.hex(), str(idx)], capture_output=True, text=True)
+            outs.append(r.stdout.strip() or r.stderr.strip()[-300:])
+        cex['replayed_on_real_code'] = outs
+    return cex
+
+
+def dec_unicode_text_pos(vals):
+    n = 4
+    buf = [v[0] for v in vals[:n]]
+    ln = _le(vals[n])
+    text = bytes(buf[:ln])
+    line, ch = _le(vals[n + 1]), _le(vals[n + 2])
+    exe = _build_bin('vk-unicode', 'replay_unicode')
+    cex = {'text_bytes_hex': text.hex(), 'text': text.decode('utf8', 'replace'), 'position': [line, ch]}
+    if exe:
+        r = subprocess.run([exe, text.hex(), '0', str(line), str(ch)], capture_output=True, text=True)
+        cex['replayed_on_real_code'] = r.stdout.strip() or r.stderr.strip()[-300:]
+    return cex
+
+
+def dec_raw(vals):
+    return {'raw_values': vals, 'as_le_integers': [_le(v) for v in vals]}
+
+
+DECODERS = {'unicode_text_idx': dec_unicode_text_idx, 'unicode_text_pos': dec_unicode_text_pos, 'raw': dec_raw}
+
+# harnesses that can produce a concrete input for a failed Verus obligation, by obligation prefix
+_U = {'package': 'vk-unicode', 'bounded': True, 'bound': 'texts <= 4 bytes', 'timeout': 900}
+REPLAY_HARNESSES = [
+    ('C16.p2u', dict(_U, harness='p2u_matches_reference', obligation='C16.p2u', decode='unicode_text_pos')),
+    ('C16.u2p', dict(_U, harness='u2p_matches_reference', obligation='C16.u2p', decode='unicode_text_idx')),
+    ('C16.range', dict(_U, harness='u2p_matches_reference', obligation='C16.range', decode='unicode_text_idx')),
+    ('C16.', dict(_U, harness='roundtrip', obligation='C16.roundtrip', decode='unicode_text_idx')),
+]
+
+
+def find_counterexamples(prop, obligations):
+    """For failed Verus obligations: run each matching bounded Kani harness once (in parallel, with
+    concrete playback) and return {obligation: counterexample}."""
+    import concurrent.futures as cf
+    need = {}
+    for o in obligations:
+        for prefix, h in REPLAY_HARNESSES:
+            if o.startswith(prefix):
+                need.setdefault(h['harness'], (h, []))[1].append(o)
+                break
+    out = {}
+    if not need:
+        return out
+    with cf.ThreadPoolExecutor(max_workers=4) as ex:
+        futs = {name: ex.submit(run_harness, dict(h, timeout=min(h.get('timeout', 600), 600)), True) for name, (h, _) in need.items()}
+        for name, f in futs.items():
+            r = f.result()
+            if r['status'] == 'fail' and r.get('counterexample'):
+                c = dict(r['counterexample'])
+                c['found_by'] = 'kani %s (%s): %s' % (r['harness'], need[name][0].get('bound', ''), r['detail'])
+                for o in need[name][1]:
+                    out[o] = c
+    return out
